@@ -84,11 +84,17 @@ func (t *toks) pquery() *proto.Query {
 	}
 	m := t.int()
 	var gb []string
+	pqueryCount++
+	if m == 0 && pqueryCount%2 == 1 {
+		gb = make([]string, 0, 4) // an empty list that is not nil: the same query
+	}
 	for i := 0; i < m; i++ {
 		gb = append(gb, t.str())
 	}
 	return &proto.Query{Expr: e, GroupBy: gb}
 }
+
+var pqueryCount int
 
 // settle waits (bounded) for the goroutine count to return to the baseline.
 func settle(base int) bool {
